@@ -520,9 +520,6 @@ func (o Op) Apply(before []sm.Record, env CmdEnv) ModelResult {
 				return reject("no pause to extend")
 			}
 			e := rs[i].Entries[pi]
-			if e.Dur.Mins == 0 && e.Dur.ZeroSign >= 0 {
-				return ModelResult{DontCare: "--extend on a zero duration that is not written with a minus sign", NewAt: -1}
-			}
 			rs[i].Entries[pi].Dur = sm.DurLit{Mins: e.Dur.Mins - elapsed}
 			return ModelResult{OK: true, Records: rs, NewAt: -1}
 		}
